@@ -411,6 +411,35 @@ func quoteLit(s string, ic bool) string {
 }
 
 func (n *Node) Text(prec int) string {
+	return n.text(prec, func(kind string, cid int) string { return fmt.Sprintf("{ /*%d*/ }", cid) })
+}
+
+// EmittedPEG renders the grammar of a case as a complete pigeon source whose code blocks call the host driver's
+// e2eAct / e2ePred / e2eState with the labels the block receives: the text that goes through the real front-end
+// and builder on the "emitted" path of the correspondence.
+func (c *Case) EmittedPEG() string {
+	code := func(kind string, cid int) string {
+		var args []string
+		if b, ok := c.Blocks[cid]; ok {
+			for _, l := range b.Params {
+				args = append(args, fmt.Sprintf(", argKV{%q, %s}", l, l))
+			}
+		}
+		return fmt.Sprintf("{ return %s(c, %d%s) }", kind, cid, strings.Join(args, ""))
+	}
+	var sb strings.Builder
+	sb.WriteString("{\npackage main\n}\n\n")
+	for _, r := range c.Rules {
+		sb.WriteString(r.Name)
+		if r.Display != "" {
+			sb.WriteString(" " + r.Display)
+		}
+		sb.WriteString(" <- " + r.Expr.text(0, code) + "\n")
+	}
+	return sb.String()
+}
+
+func (n *Node) text(prec int, code func(kind string, cid int) string) string {
 	// precedence: 0 recovery, 1 choice, 2 action, 3 seq, 4 label, 5 prefix, 6 suffix, 7 primary
 	wrap := func(p int, s string) string {
 		if p < prec {
@@ -428,39 +457,39 @@ func (n *Node) Text(prec int) string {
 	case KSeq:
 		parts := make([]string, len(n.Kids))
 		for i, k := range n.Kids {
-			parts[i] = k.Text(4)
+			parts[i] = k.text(4, code)
 		}
 		return wrap(3, strings.Join(parts, " "))
 	case KAlt:
 		parts := make([]string, len(n.Kids))
 		for i, k := range n.Kids {
-			parts[i] = k.Text(2)
+			parts[i] = k.text(2, code)
 		}
 		return wrap(1, strings.Join(parts, " / "))
 	case KStar:
-		return wrap(6, n.Kids[0].Text(7)+"*")
+		return wrap(6, n.Kids[0].text(7, code)+"*")
 	case KPlus:
-		return wrap(6, n.Kids[0].Text(7)+"+")
+		return wrap(6, n.Kids[0].text(7, code)+"+")
 	case KOpt:
-		return wrap(6, n.Kids[0].Text(7)+"?")
+		return wrap(6, n.Kids[0].text(7, code)+"?")
 	case KAnd:
-		return wrap(5, "&"+n.Kids[0].Text(6))
+		return wrap(5, "&"+n.Kids[0].text(6, code))
 	case KNot:
-		return wrap(5, "!"+n.Kids[0].Text(6))
+		return wrap(5, "!"+n.Kids[0].text(6, code))
 	case KLab:
-		return wrap(4, n.Label+":"+n.Kids[0].Text(5))
+		return wrap(4, n.Label+":"+n.Kids[0].text(5, code))
 	case KAct:
-		return wrap(2, n.Kids[0].Text(3)+fmt.Sprintf(" { /*%d*/ }", n.Cid))
+		return wrap(2, n.Kids[0].text(3, code)+" "+code("e2eAct", n.Cid))
 	case KAndC:
-		return fmt.Sprintf("&{ /*%d*/ }", n.Cid)
+		return "&" + code("e2ePred", n.Cid)
 	case KNotC:
-		return fmt.Sprintf("!{ /*%d*/ }", n.Cid)
+		return "!" + code("e2eNPred", n.Cid)
 	case KStC:
-		return fmt.Sprintf("#{ /*%d*/ }", n.Cid)
+		return "#" + code("e2eState", n.Cid)
 	case KRef:
 		return n.Ref
 	case KRec:
-		return wrap(0, n.Kids[0].Text(0)+" //{"+strings.Join(n.Labels, ",")+"} "+n.Kids[1].Text(1))
+		return wrap(0, n.Kids[0].text(0, code)+" //{"+strings.Join(n.Labels, ",")+"} "+n.Kids[1].text(1, code))
 	case KThrow:
 		return wrap(4, "%{"+n.Label+"}") // ThrowExpr is an alternative of LabeledExpr in pigeon.peg
 	}
@@ -472,7 +501,7 @@ func GrammarText(rules []*Rule) string {
 	for _, r := range rules {
 		sb.WriteString(r.Name)
 		if r.Display != "" {
-			sb.WriteString(" " + strconv.Quote(r.Display))
+			sb.WriteString(" " + r.Display)
 		}
 		sb.WriteString(" <- " + r.Expr.Text(0) + "\n")
 	}
